@@ -29,7 +29,7 @@ FUNCTIONALS = ["_RootFinder", "_SolveIVP", "_Quadrature", "_MCQuad"]
 
 
 def rules(model: Model, tier: str) -> List[RuleResult]:
-    R6 = RuleResult(PROP, "AC6", "layout agreement of every public functional with its Function.forward", min_instances=30)
+    R6 = RuleResult(PROP, "AC6", "layout agreement of every public functional with its Function.forward", min_instances=20)
     S = RuleResult(PROP, "C09-S", "sibling decoration of nested functions handed to .apply / make_sibling", min_instances=7)
     D = RuleResult(PROP, "C09-D", "get_pure_function dispatch is exhaustive and raises otherwise", min_instances=6)
     U = RuleResult(PROP, "C09-U", "uniquifier agreement and multi-sibling split offsets", min_instances=5)
